@@ -173,50 +173,38 @@ def _check_init(ctx, model, dm):
     if init is None or init.kind != "func":
         raise AnalysisError("DependencyMapper.__init__ not found")
     fn = init.node
-    pss = summarize(fn, loop_mode="1", node_param=False)
     flags = ["include_subscripts", "include_lookups", "include_calls"]
-    cases = {"False": 0, "True": 0, "None": 0}
-    for ps in pss:
-        if ps.term == "raise":
-            continue
-        final = {}
-        for e in ps.events:
-            if e.kind == "attrwrite" and e.arg == ("selfobj",):
-                final[e.name] = e.value
-        cl = {}
-        for test, pol, val in ps.conds:
-            if isinstance(val, tuple) and val[0] == "compare" \
-                    and val[2] == ("param", "composite_leaves") \
-                    and val[1] == ("Is",):
-                cl[val[3][0][1]] = pol
-        if cl.get(False) is True and cl.get(True) is True:
-            continue    # composite_leaves cannot be both
-        if cl.get(False) is True:
-            want = ("const", False)
-            case = "False"
-        elif cl.get(True) is True:
-            want = ("const", True)
-            case = "True"
-        else:
-            want = None
-            case = "None"
-        cases[case] += 1
-        for f in flags:
-            got = final.get(f)
-            exp = want if want is not None else ("param", f)
-            ctx.ob(f"T/DependencyMapper/__init__/composite={case}/{f}", got == exp,
-                   where(init),
-                   f"self.{f} = {_short(exp)}" if got == exp else
-                   f"with composite_leaves={case}, self.{f} ends up as "
-                   f"{_short(got)} instead of {_short(exp)}")
-        got = final.get("include_cses")
-        ctx.ob(f"T/DependencyMapper/__init__/composite={case}/include_cses",
-               got == ("param", "include_cses"), where(init),
-               "self.include_cses = include_cses")
-    for c, k in cases.items():
-        ctx.ob(f"T/DependencyMapper/__init__/case-{c}", k > 0, where(init),
-               f"constructor handles composite_leaves={c}" if k else
-               f"constructor has no path for composite_leaves={c}")
+    # the constructor is evaluated once for each value the switch can take
+    # (the value is substituted for the parameter, so every spelling of the
+    # tests on it -- is / ==, one if or two, or-ed -- is decided the same way)
+    for case, val in (("False", ("const", False)), ("True", ("const", True)),
+                      ("None", ("const", None))):
+        n_paths = 0
+        for ps in summarize(fn, loop_mode="1", node_param=False,
+                            assume={"composite_leaves": val}):
+            if ps.term == "raise":
+                continue
+            n_paths += 1
+            final = {}
+            for e in ps.events:
+                if e.kind == "attrwrite" and e.arg == ("selfobj",):
+                    final[e.name] = e.value
+            for f in flags:
+                got = final.get(f)
+                exp = val if case != "None" else ("param", f)
+                ctx.ob(f"T/DependencyMapper/__init__/composite={case}/{f}",
+                       got == exp, where(init),
+                       f"self.{f} = {_short(exp)}" if got == exp else
+                       f"with composite_leaves={case}, self.{f} ends up as "
+                       f"{_short(got)} instead of {_short(exp)}")
+            got = final.get("include_cses")
+            ctx.ob(f"T/DependencyMapper/__init__/composite={case}/include_cses",
+                   got == ("param", "include_cses"), where(init),
+                   "self.include_cses = include_cses")
+        ctx.ob(f"T/DependencyMapper/__init__/case-{case}", n_paths > 0,
+               where(init),
+               f"constructor handles composite_leaves={case}" if n_paths else
+               f"constructor has no path for composite_leaves={case}")
 
 
 def _check_dep_coverage(ctx, model, dm):
